@@ -114,9 +114,15 @@ def st_lte_template(draw, family):
 
 @st.composite
 def st_lte_twostep(draw):
-    if draw(st.booleans()):
+    k = draw(st.integers(0, 5))
+    if k < 2:
         spec = draw(Z.st_twostep(variant="strongT"))
         spec["strongT"] = True
+        return spec
+    if k < 4:
+        # template Jouguet velocity up to 0.1 below the true one; 8 % of these have the LTE root in between
+        spec = draw(Z.st_twostep(variant="steepT"))
+        spec["steepT"] = True
         return spec
     spec = draw(Z.st_twostep())
     if draw(st.integers(0, 3)) == 0:
@@ -310,6 +316,8 @@ def check_case(case) -> Verdict:
     fam = spec["family"]
     v.label(f"family:{fam}", f"solver:{solver}", f"tol:{rtol:g}",
             "Tn-above-Tc" if spec.get("allow_unfavoured") else "Tn-below-Tc")
+    if fam == "twostep":
+        v.label("twostep:" + ("strongT" if spec.get("strongT") else "steepT" if spec.get("steepT") else "plain"))
     try:
         th, meta = Z.build(spec)
     except Z.ZooError as exc:
